@@ -28,10 +28,11 @@ Record cfg := mkCfg {
   fix_pdur_event : bool;    (* Pdur converts the child's output with evt.event(...)          *)
   fix_pdur_int : bool;      (* Pdur stores the remaining time itself unless delta is a Rest  *)
   fix_scale_tuning : bool;  (* Scale.__init__ keeps a Tuning instance (octave ratio, spo)    *)
-  fix_scale_key : bool      (* EventDict.__call__ does not turn a Scale into an arrayed_param *)
+  fix_scale_key : bool;     (* EventDict.__call__ does not turn a Scale into an arrayed_param *)
+  fix_pdelta_input : bool   (* Pdelta embeds its pattern with the event received after the rest, not the first one *)
 }.
-Definition patched := mkCfg true true true true true.
-Definition unpatched := mkCfg false false false false false.
+Definition patched := mkCfg true true true true true true.
+Definition unpatched := mkCfg false false false false false false.
 
 Record kern := mkK { k_midicps : Q -> Q; k_cpsmidi : Q -> Q; k_dbamp : Q -> Q; k_ampdb : Q -> Q }.
 
@@ -76,9 +77,12 @@ Fixpoint put (k : string) (v : value) (e : event) : event :=
 (* dict.update *)
 Definition update (e : event) (kvs : event) : event := fold_left (fun acc kv => put (fst kv) (snd kv) acc) kvs e.
 
-Definition vnum (v : value) : num := match v with VNum n => n | VRest n => n | _ => NErr end.
+(* Python bools are ints: False = 0, True = 1 *)
+Definition bnum (b : bool) : num := I (if b then 1 else 0)%Z.
+Definition vnum (v : value) : num := match v with VNum n => n | VRest n => n | VBool b => bnum b | _ => NErr end.
+Definition unbool (v : value) : value := match v with VBool b => VNum (bnum b) | _ => v end.
 Definition vlift2 (f : num -> num -> num) (a b : value) : value :=
-  match a, b with
+  match unbool a, unbool b with
   | VNum x, VNum y => VNum (f x y)
   | VRest x, VNum y => VRest (f x y)
   | VNum x, VRest y => VRest (f x y)
@@ -311,13 +315,17 @@ Definition get_msg_params K (lib : synthlib) (e : event) : event * list (string 
   end.
 
 Definition action_number (v : value) : Z :=
+  match v with
+  | VNum (I z) => if (0 <=? z)%Z && (z <=? 4)%Z then z else (-1)%Z        (* 0: 0, 1: 1, ... 4: 4 *)
+  | _ =>
   let s := sym_of v in
   if String.eqb s "addToHead" || String.eqb s "head" || String.eqb s "h" then 0
   else if String.eqb s "addToTail" || String.eqb s "tail" || String.eqb s "t" then 1
   else if String.eqb s "addBefore" || String.eqb s "before" || String.eqb s "b" then 2
   else if String.eqb s "addAfter" || String.eqb s "after" || String.eqb s "a" then 3
   else if String.eqb s "addReplace" || String.eqb s "replace" || String.eqb s "r" then 4
-  else (-1).
+  else (-1)
+  end.
 
 (* OscScore._get_logical_time inside a routine: (0 if time < 0 else time) + send_time *)
 Definition stamp (now : Q) (t : Q) : Q := (if Qlt_bool t 0 then 0 else t) + now.
@@ -382,6 +390,8 @@ Inductive st :=
 | SChain (ss : list st)                                  (* reversed(self.patterns) *)
 | SPar (started : bool) (q : spec) (now : num) (cs : list st)
 | SDelta (pending : bool) (t : value) (s : st)
+| SDeltaStale (inev0 : event) (s : st)                   (* released code: the rest was yielded, the pattern will be
+                                                            embedded with the FIRST input event *)
 | SDur (elapsed : num) (d : num) (s : st)
 | SDurEnd (s : st)                                       (* after "return (yield inevent)" *)
 | SDone.
@@ -419,6 +429,7 @@ Fixpoint pending_offs K (s : st) : list msg :=
   | SChain ss => flat_map (pending_offs K) ss
   | SPar _ _ _ cs => flat_map (pending_offs K) cs
   | SDelta _ _ s' => pending_offs K s'
+  | SDeltaStale _ s' => pending_offs K s'
   | SDur _ _ s' => pending_offs K s'
   | SDurEnd s' => pending_offs K s'
   | _ => []
@@ -493,11 +504,18 @@ Fixpoint snext (depth : nat) (s : st) (inev : event) (mc : nat) : res * nat :=
         end
     | SDelta true t s' =>
         (* if self.time > 0.0: yield evt.silent(self.time, inevent) *)
-        if ngt (vnum t) (F 0) then (RYield (silent t inev) (SDelta false t s') [], mc)
+        if ngt (vnum t) (F 0)
+        then (RYield (silent t inev) (if fix_pdelta_input c then SDelta false t s' else SDeltaStale inev s') [], mc)
         else match snext dep s' inev mc with
              | (RYield e s'' o, mc') => (RYield e (SDelta false t s'') o, mc')
              | r => r
              end
+    | SDeltaStale inev0 s' =>
+        (* "yield evt.silent(...)" drops the event sent in: stm.embed(self.pattern, inevent) still sees the first one *)
+        match snext dep s' inev0 mc with
+        | (RYield e s'' o, mc') => (RYield e (SDelta false VNone s'') o, mc')
+        | r => r
+        end
     | SDelta false t s' =>
         match snext dep s' inev mc with
         | (RYield e s'' o, mc') => (RYield e (SDelta false t s'') o, mc')
@@ -593,6 +611,39 @@ Fixpoint player (fuel depth : nat) (s : st) (proto : event) (mc : nat) (now : Q)
     end
   end.
 
+(* the same loop with a controller acting from another routine: player.stop() at logical time t (the routine is
+   Done, EventStreamCleanup.run() releases the Pmono nodes at t, the pending wake-up finds a stopped routine), or
+   player.pause() at t1 and player.resume() at t2 (the pending wake-up is dropped, the next pull happens at t2) *)
+Inductive ctl := CNone | CStop (t : Q) | CPause (t1 t2 : Q).
+Fixpoint player_c (fuel depth : nat) (ct : ctl) (s : st) (proto : event) (mc : nat) (now : Q) : list entry :=
+  match fuel with
+  | O => []
+  | S f =>
+    match (match ct with CStop t => if Qle_bool t now then Some t else None | _ => None end) with
+    | Some t => map (LOff t) (pending_offs K s)
+    | None =>
+      let '(now1, ct1) := match ct with
+                          | CPause t1 t2 => if Qle_bool t1 now then (t2, CNone) else (now, ct)
+                          | _ => (now, ct)
+                          end in
+      match snext depth s proto mc with
+      | (RError, _) => []
+      | (RStop offs, _) => map (LOff now1) offs
+      | (RYield e0 s' offs, mc') =>
+          let e := as_event e0 in
+          map (LOff now1) offs ++ LEv now1 e ::
+          match ev_call K e "delta" with
+          | VNum (I z) => player_c f depth ct1 s' proto mc' (now1 + inject_Z z)
+          | VNum (F q) => player_c f depth ct1 s' proto mc' (now1 + q)
+          | VRest n => if fix_rest_delta c
+                       then match n with NErr => [] | _ => player_c f depth ct1 s' proto mc' (now1 + toQ n) end
+                       else []
+          | _ => []
+          end
+      end
+    end
+  end.
+
 (* the bundles, in the order they are sent *)
 Fixpoint sends_from (lat : Q) (k : nat) (log : list entry) : list bundle :=
   match log with
@@ -604,6 +655,8 @@ End Streams.
 
 Definition sends c K lib lat fuel depth p proto start : list bundle :=
   sends_from K lib lat 0 (player c K lib fuel depth (init p) proto 0 start).
+Definition sends_c c K lib lat fuel depth ct p proto start : list bundle :=
+  sends_from K lib lat 0 (player_c c K lib fuel depth ct (init p) proto 0 start).
 
 (* ---- the score: stable sort by time (OscScore keeps bundles in a TaskQueue) ------------------- *)
 Fixpoint insert_b (x : bundle) (l : list bundle) : list bundle :=
@@ -673,6 +726,8 @@ Definition value_num_close (v : value) (kind : nat) (x : num) : bool :=
   match v with
   | VNum n => Nat.eqb kind 0 && num_close n x
   | VRest n => Nat.eqb kind 1 && num_closeq n x
+  | VBool b => Nat.eqb kind 2 && num_close (bnum b) x
+  | VNone => Nat.eqb kind 3
   | _ => false
   end.
 
@@ -682,6 +737,8 @@ Definition keys_ok K (e : event) (l : list (string * nat * num)) : bool :=
 (* one pattern case: the model's score, ids renamed by first appearance, against the implementation's *)
 Definition pat_ok c K lib lat fuel depth p proto start (impl : list bundle) : bool :=
   score_close (canon_score [] (score_of (sends c K lib lat fuel depth p proto start))) impl.
+Definition pat_ok_c c K lib lat fuel depth ct p proto start (impl : list bundle) : bool :=
+  score_close (canon_score [] (score_of (sends_c c K lib lat fuel depth ct p proto start))) impl.
 Definition the_lib : synthlib :=
   [("c14a", mkDesc ["freq"; "amp"; "gate"; "pan"] false);
    ("c14b", mkDesc ["freq"; "amp"; "pan"; "cutoff"] false);
